@@ -15,6 +15,7 @@ import (
 	"sync/atomic"
 	"time"
 
+	"verif/harness/portres"
 	"verif/harness/ref"
 )
 
@@ -69,6 +70,7 @@ type Node struct {
 	Failed bool // failed-over old master (listed as master,fail without slots)
 
 	lmu   sync.Mutex
+	res   *portres.Port
 	ln    net.Listener
 	conns map[*nodeConn]struct{}
 	up    bool
@@ -148,6 +150,12 @@ func (w *World) Close() {
 	w.mu.Unlock()
 	for _, n := range nodes {
 		n.Stop()
+		n.lmu.Lock()
+		if n.res != nil {
+			n.res.Release()
+			n.res = nil
+		}
+		n.lmu.Unlock()
 	}
 }
 
@@ -496,10 +504,18 @@ func (n *Node) Start() error {
 	if n.up {
 		return nil
 	}
+	if n.res == nil {
+		// the port stays reserved for this node while it is stopped (see package portres)
+		r, err := portres.Reserve()
+		if err != nil {
+			return err
+		}
+		n.res = r
+	}
 	var ln net.Listener
 	var err error
 	for i := 0; i < 200; i++ {
-		ln, err = net.Listen("tcp", fmt.Sprintf("127.0.0.1:%d", n.port))
+		ln, err = n.res.Listen()
 		if err == nil {
 			break
 		}
@@ -510,8 +526,8 @@ func (n *Node) Start() error {
 	}
 	n.ln = ln
 	n.up = true
-	n.port = ln.Addr().(*net.TCPAddr).Port
-	n.Addr = ln.Addr().String()
+	n.port = n.res.Port
+	n.Addr = n.res.Addr
 	go n.acceptLoop(ln)
 	return nil
 }
